@@ -34,12 +34,12 @@ PathsW == {Root} \cup GroupsW \cup ChansW
 (* ------------------- value -> TDMS type (writer.py case analysis) ------------------- *)
 \* _to_tdms_value / to_int_property_value: the TDMS type a property value is written with
 TdmsTypeOfValue(vc) ==
-  CASE vc \in {"int_small", "int_neg", "int_m2p31", "int_2p31m1"} -> "Int32"
+  CASE vc \in {"int_small", "int_neg", "int_m2p31", "int_2p31m1", "int_three"} -> "Int32"
     [] vc \in {"int_2p31", "int_lt_m2p31", "int_2p63m1", "int_m2p63"} -> "Int64"
     [] vc \in {"int_2p63", "int_2p64m1"} -> "Uint64"
-    [] vc \in {"float", "float_nan", "float_int_valued"} -> "DoubleFloat"
+    [] vc \in {"float", "float_nan", "float_int_valued", "float_five"} -> "DoubleFloat"
     [] vc \in {"bool_true", "bool_false", "np_bool"} -> "Boolean"
-    [] vc \in {"str_ascii", "str_multibyte", "str_empty"} -> "String"
+    [] vc \in {"str_ascii", "str_multibyte", "str_empty", "str_tag"} -> "String"
     [] vc \in {"datetime", "datetime64_us", "datetime64_s", "tdms_timestamp"} -> "TimeStamp"
     [] vc = "np_int8" -> "Int8"   [] vc = "np_int16" -> "Int16" [] vc = "np_int32" -> "Int32" [] vc = "np_int64" -> "Int64"
     [] vc = "np_uint8" -> "Uint8" [] vc = "np_uint16" -> "Uint16" [] vc = "np_uint32" -> "Uint32"
@@ -62,11 +62,11 @@ TdmsTypesOfArray(ac) ==
     [] ac = "list_u16" -> {"Uint16"} [] ac = "list_i32" -> {"Int32"} [] ac = "list_u32" -> {"Uint32"}
     [] ac = "list_i64" -> {"Int64"} [] ac = "list_u64" -> {"Uint64"}
     [] ac = "list_float" -> {"DoubleFloat"} [] ac = "list_bool" -> {"Int8", "Boolean"}
-    [] ac \in {"list_str", "np_str", "list_str_multibyte"} -> {"String"}
+    [] ac \in {"list_str", "np_str", "list_str_multibyte", "list_str_all_empty"} -> {"String"}
     [] ac \in {"np_datetime64_us", "np_datetime64_ns", "list_datetime", "timestamp_array"} -> {"TimeStamp"}
 
 ListClass(ac) == ac \in {"list_i8", "list_u8", "list_i16", "list_u16", "list_i32", "list_u32", "list_i64", "list_u64",
-                         "list_float", "list_bool", "list_str", "list_str_multibyte", "list_datetime"}
+                         "list_float", "list_bool", "list_str", "list_str_multibyte", "list_str_all_empty", "list_datetime"}
 \* classes whose type is taken from the first element: an empty array of them cannot be written
 NeedsElement(ac) == ListClass(ac) \/ ac \in {"np_str", "timestamp_array", "np_be_int32", "np_be_float64",
                                               "np_datetime64_us", "np_datetime64_ns"}
